@@ -151,6 +151,10 @@ xml_get_val_arr(const uint8_t *xml_data, size_t xml_data_size,
 			level --;
 			if (0 <= level) /* Close some sub tag. */
 				continue;
+			if (0 == cur_tag) { /* Stray close tag: nothing is open. */
+				level = 0;
+				continue;
+			}
 			if (0 != mem_cmpn(tag_arr[(cur_tag - 1)], tag_arr_cnt[(cur_tag -1)],
 			    (TagStart + 1), (size_t)(TagEnd - TagStart))) /* Is name close qual name open? */
 				continue;
@@ -599,6 +603,10 @@ xml_get_val_ns_arr(const uint8_t *xml_data, size_t xml_data_size,
 			//LOG_EV_FMT("tag cmp (%zu) = %s", ((TagEnd + 1) - TagNameStart), TagNameStart);
 			if (0 <= level) /* Close some sub tag. */
 				continue;
+			if (0 == cur_tag) { /* Stray close tag: nothing is open. */
+				level = 0;
+				continue;
+			}
 			if (0 != ret_ns_size[(cur_tag - 1)]) { /* Fix name space. */
 				TagNameStart += (ret_ns_size[(cur_tag - 1)] + 1); /* = 'ns' + ':' */
 			}
